@@ -524,6 +524,18 @@ func (e *g6SchemeEval) eval(v ssa.Value, isScheme g6SchemePred, depth int) g6Tri
 		}
 		return acc.value()
 	case *ssa.Call:
+		// membership of the scheme in a read-only package-level table of constants
+		// (slices.Contains(table, scheme)): the elements are the constants compared with (ip_h5.go)
+		if elems, ok := h5SchemeTableTest(x, isScheme); ok {
+			in := false
+			for _, k := range elems {
+				e.consts[k] = true
+				if !e.other && e.s == k {
+					in = true
+				}
+			}
+			return g6TriOf(in)
+		}
 		// a predicate of the package applied to the scheme: its returns under the assumed scheme
 		callee := x.Call.StaticCallee()
 		if callee == nil || len(callee.Blocks) == 0 || pkgRel(callee) != e.pkg || callee.Signature.Results().Len() != 1 || depth > 8 {
@@ -753,6 +765,31 @@ func (j *c19HostJudge) judge(fn *ssa.Function, v ssa.Value, conds []Cond, depth 
 					}
 				}
 				return false, "the host found in the authority part is kept on a path on which the parameter is not known to be empty (" + a.at + ")" + c19WrongHost
+			}
+		}
+		return true, ""
+	}
+	// cmp.Or(parameter, authority host, ...): the first argument that is not "" - the parameter exactly
+	// when it is non-empty, otherwise what follows. The parameter must come first (anything before it
+	// would take precedence over it) and must be the parameter itself.
+	if args, ok := h5CmpOrArgs(v); ok && depth < 4 {
+		if len(args) == 0 || !c19IsHostParam(args[0]) {
+			return false, "the value stored in URL.Host is the first non-empty of several values and the 'host' parameter is not the first of them" + c19WrongHost
+		}
+		for _, a := range args[1:] {
+			// (not looking behind a load of the host field itself: in url.Host = cmp.Or(p, url.Host) the
+			// flow-insensitive reading of that load would find the very store being judged)
+			behindHost := func(v ssa.Value) bool {
+				ld, ok := v.(*ssa.UnOp)
+				return ok && ld.Op == token.MUL && strings.HasSuffix(pathOf(ld), ".Host")
+			}
+			if dependsOnBarrier(a, func(x ssa.Value) bool { return c19IsHostParam(x) || c19HostHelper(x, j.pkg) != nil }, behindHost) {
+				return false, "the value stored in URL.Host is computed from the 'host' parameter in a way not decided (" + pathOf(a) + ")"
+			}
+		}
+		for _, cd := range conds {
+			if j.onHost(cd) {
+				return false, "the override is made conditional on the current value of the host at " + j.c.pos(cd.V.Pos()) + c19WrongHost
 			}
 		}
 		return true, ""
